@@ -543,7 +543,9 @@ func (a *arrayObject) exportToArrayOrSlice(dst reflect.Value, typ reflect.Type, 
 		} else {
 			dst.Set(reflect.MakeSlice(typ, l, l))
 		}
-		ctx.putTyped(a.val, typ, dst.Interface())
+		if typ.Kind() != reflect.Array {
+			ctx.putTyped(a.val, typ, dst.Interface())
+		}
 		for i := 0; i < l; i++ {
 			if i >= len(a.values) {
 				break
@@ -560,6 +562,10 @@ func (a *arrayObject) exportToArrayOrSlice(dst reflect.Value, typ reflect.Type, 
 			if err != nil {
 				return fmt.Errorf("could not convert array element %v to %v at %d: %w", val, typ, i, err)
 			}
+		}
+		if typ.Kind() == reflect.Array {
+			// an array is a value: what is remembered for a second occurrence of the same object is the filled copy
+			ctx.putTyped(a.val, typ, dst.Interface())
 		}
 		return nil
 	}
